@@ -386,13 +386,27 @@ class ForbiddenRng:
 # memo caches of the code under test must not carry proxies (or anything else) from one path to the next
 
 
+_KEEP = ('cached_compute_rays', 'cached_compute_rays_fancy')
+_CACHES = {}  # module name -> list of memo wrappers found in it (scanned once per module)
+
+
 def _clear_repo_caches():
-    from gym_gridverse.envs import reward_functions as _RF
-    # (the ray caches are keyed by the concrete view area and anchor only -- harnesses never pass proxies there --
-    #  and recomputing ray fans on every path would dominate the run time)
-    f = getattr(_RF, 'dijkstra', None)
-    if f is not None and hasattr(f, 'cache_clear'):
-        f.cache_clear()
+    """every functools memo wrapper found at module level of the loaded gym_gridverse modules is emptied before each path
+    (whatever its name: a change of the library may add one).  The ray caches are kept: they are keyed by the concrete view
+    area and anchor only -- harnesses never pass proxies there -- and recomputing ray fans on every path would dominate the run"""
+    import sys
+    for name, mod in list(sys.modules.items()):
+        if not name.startswith('gym_gridverse') or mod is None:
+            continue
+        found = _CACHES.get(name)
+        if found is None:
+            found = _CACHES[name] = [v for k, v in list(vars(mod).items()) if k not in _KEEP and callable(getattr(v, 'cache_clear', None))
+                                     and callable(getattr(v, 'cache_info', None))]
+        for f in found:
+            try:
+                f.cache_clear()
+            except Exception:
+                pass
 
 
 from . import symx as _symx  # noqa: E402
